@@ -273,12 +273,17 @@ pub fn expand_record(old: &[u32], new: &[u32], op: &DiffOp, case: i64) -> Value 
             let mut by_ref = &mut cap2;
             op.apply_to_hook(&mut by_ref).unwrap();
         }
-        (changes, slices, cap.into_ops(), cap2.into_ops(), via)
+        // ... and through the Replace adapter in front of the capturing hook (one op, then finish)
+        let mut rc = Replace::new(Capture::new());
+        op.apply_to_hook(&mut rc).unwrap();
+        similar::algorithms::DiffHook::finish(&mut rc).unwrap();
+        let re3 = rc.into_inner().into_ops();
+        (changes, slices, cap.into_ops(), cap2.into_ops(), via, re3)
     });
     match r {
-        Some((changes, slices, re, re2, via)) => json!({"ev":"expand1","case":case,"old":seq_json(old),"new":seq_json(new),
+        Some((changes, slices, re, re2, via, re3)) => json!({"ev":"expand1","case":case,"old":seq_json(old),"new":seq_json(new),
             "op":op_json(op),"panic":false,"changes":changes,"slices":slices,"reapplied":ops_json(&re),
-            "reapplied_ref":ops_json(&re2),"via":via}),
+            "reapplied_ref":ops_json(&re2),"via":via,"reapplied_replace":ops_json(&re3)}),
         None => json!({"ev":"expand1","case":case,"old":seq_json(old),"new":seq_json(new),
             "op":op_json(op),"panic":true,"changes":[],"slices":[],"reapplied":[],"reapplied_ref":[]}),
     }
